@@ -39,7 +39,7 @@ PROP = dict(
 )
 
 CLAIM = dict(
-    text="Lean theorems over Model/Mono.lean (strings as byte(rune) lists; Model/GoRunes.lean models Go's range decoding and the truncation). C20.ink_in_box / ink_in_box_lines: for every string (line feeds included: renderText_lf, one box per LF-separated line, first line at the cursor, the others at column 0), every font number, mode, spacing, size h>=0 and any v, any canvas, bounding box and cursor, with wrapping off, RenderText changes no stored bit outside the clipped line boxes [x, x+StrWidth(line)+h) x [y, y+v*cellHeight) (= LineHeight by lineHeight_eq). Font tables regenerated from /repo: no table index used for any byte is out of range (drawChar_index_in_range, font_tables_sized, glyph_facts), glyphs are at most 9 columns wide. C20.translation_any / translation_lines: on any starting canvas and bounding box, background = text colour, wrapping off, no glyph rejected by DrawChar's whole-glyph test, the rendering at (cx+dx, cy+dy) read at (X+dx, Y+dy) and the rendering at (cx, cy) read at (X, Y) are both painted or both untouched (line feeds: first line moves by (dx,dy), the others by (0,dy)); translation / translation_fits are the blank-canvas instances. C20.scale_general: size (h,v) with extra spacing h*k equals size 1 with extra spacing k enlarged h x v (scale_zero_spacing: k=0; scale_single_glyph: one glyph, any spacings). C20.wrap_irrelevant (text box + 8h fits => wrap on = wrap off; wrap_box_fits_counterexample shows a mere fit is not enough), strWidth_append. C20.spec_check_holds_state (spec_check_holds = its instance for the fixed setter order): the executable predicate Spec.Text.check itself answers `none` on the model's three renderings for every text state with spacing 0, every string without line feed, sizes >= 1, any cursor and offset, blank canvases of width a multiple of 8. C20.sess_final_holds / runCalls_bg: the same after ANY call history on one image object (Mono.TextCall: setters in any order incl. SetBoundingBox / InvertPixels, queries, earlier texts, re-creations, direct DrawChar) - the model's object has no state besides canvas and text state. C20.spec_check_spacing: for every text state with any extra spacing, in the class of the recorded finding Spec.Text.check answers `none` or `scale.spacing`, never `scale` (the glyph cells at the advance h*w+s are the size-1 cells enlarged exactly h x v, nothing lit between them: Lemmas/MonoTextDev.textR0_dev); by kernel evaluation the recorded example gives `scale.spacing` and the same case with one extra pixel `scale`. All clauses (per line for strings with line feeds) are also evaluated on the real renderer's output for every byte x font x mode and random strings incl. multi-byte and malformed UTF-8 (model = implementation, Spec on the implementation's renderings). The same clauses are evaluated after arbitrary call histories on one image object (text.sess: setters in any order, metric queries - also the same queries before and after every single setter call, each answered by the model from the state at that moment -, earlier texts, re-creation, direct DrawChar with its own size arguments; the theorems quantify over every text state, so over every history). Known finding C20.scale_with_spacing (scale_with_spacing_counterexample): with the same extra character spacing > 0 on both sides, size h > 1 and >= 2 glyphs on a line the scaling clause is false of the code; a failure of the scale clause in that class is excused (clause scale.spacing) only if the rendering is exactly what the documented advance h*w+s gives - every glyph cell the size-1 cell enlarged h x v at that origin, nothing lit between the cells (Spec.Text.scaleDevOk, from the reported GetCharWidth of every glyph); anything else there is a plain `scale` violation.",
-    note=TB + "spec_check_holds_state / sess_final_holds / spec_check_spacing are for one-line strings on canvases whose width is a multiple of 8; for strings with line feeds the Spec-level statement is checked on every run, the model-level per-line theorems are ink_in_box_lines / translation_lines / scale_general. Clipped renderings (negative cursors etc.): box clauses and model comparison only.",
+    text="Lean theorems over Model/Mono.lean (strings as byte(rune) lists; Model/GoRunes.lean models Go's range decoding and the truncation). C20.ink_in_box / ink_in_box_lines: for every string (line feeds included: renderText_lf, one box per LF-separated line, first line at the cursor, the others at column 0), every font number, mode, spacing, size h>=0 and any v, any canvas, bounding box and cursor, with wrapping off, RenderText changes no stored bit outside the clipped line boxes [x, x+StrWidth(line)+h) x [y, y+v*cellHeight) (= LineHeight by lineHeight_eq). Font tables regenerated from /repo: no table index used for any byte is out of range (drawChar_index_in_range, font_tables_sized, glyph_facts), glyphs are at most 9 columns wide. C20.translation_any / translation_lines: on any starting canvas and bounding box, background = text colour, wrapping off, no glyph rejected by DrawChar's whole-glyph test, the rendering at (cx+dx, cy+dy) read at (X+dx, Y+dy) and the rendering at (cx, cy) read at (X, Y) are both painted or both untouched (line feeds: first line moves by (dx,dy), the others by (0,dy)); translation / translation_fits are the blank-canvas instances. C20.scale_general: size (h,v) with extra spacing h*k equals size 1 with extra spacing k enlarged h x v (scale_zero_spacing: k=0; scale_single_glyph: one glyph, any spacings). C20.wrap_irrelevant (text box + 8h fits => wrap on = wrap off; wrap_box_fits_counterexample shows a mere fit is not enough), strWidth_append. C20.spec_check_lines_state (spec_check_lines = its instance for the fixed setter order; spec_check_holds_state / spec_check_holds = the older one-line, width-multiple-of-8 instances): the executable predicate Spec.Text.check itself answers `none` on the model's three renderings for every text state with spacing 0, EVERY string (any number of line feeds: one segment per line, lines after the first at column 0 as the code puts them - renderText_lf, lineSt_eq), sizes >= 1, any cursor and offset, blank canvases of ANY width (row stride ceil(W/8) bytes; the padding bits the Spec also scans are never written); box clauses always, translation and scale clauses under the Spec's own gate `unclipped` (every line box of A, B and C on the canvas). C20.sess_final_lines (sess_final_holds = one-line instance) / runCalls_bg: the same after ANY call history on one image object (Mono.TextCall: setters in any order incl. SetBoundingBox / InvertPixels, queries, earlier texts, re-creations, direct DrawChar) - the model's object has no state besides canvas and text state. C20.spec_check_spacing: for every text state with any extra spacing, one-line strings, canvas width a multiple of 8, in the class of the recorded finding Spec.Text.check answers `none` or `scale.spacing`, never `scale` (the glyph cells at the advance h*w+s are the size-1 cells enlarged exactly h x v, nothing lit between them: Lemmas/MonoTextDev.textR0_dev); by kernel evaluation the recorded example gives `scale.spacing` and the same case with one extra pixel `scale`. All clauses (per line for strings with line feeds) are also evaluated on the real renderer's output for every byte x font x mode and random strings incl. multi-byte and malformed UTF-8 (model = implementation, Spec on the implementation's renderings). The same clauses are evaluated after arbitrary call histories on one image object (text.sess: setters in any order, metric queries - also the same queries before and after every single setter call, each answered by the model from the state at that moment -, earlier texts, re-creation, direct DrawChar with its own size arguments; the theorems quantify over every text state, so over every history). Known finding C20.scale_with_spacing (scale_with_spacing_counterexample): with the same extra character spacing > 0 on both sides, size h > 1 and >= 2 glyphs on a line the scaling clause is false of the code; a failure of the scale clause in that class is excused (clause scale.spacing) only if the rendering is exactly what the documented advance h*w+s gives - every glyph cell the size-1 cell enlarged h x v at that origin, nothing lit between the cells (Spec.Text.scaleDevOk, from the reported GetCharWidth of every glyph); anything else there is a plain `scale` violation.",
+    note=TB + "spec_check_lines_state / spec_check_lines / sess_final_lines (spacing 0) hold for strings with any number of line feeds on canvases of any width. spec_check_spacing (extra spacing > 0: `none` or `scale.spacing`) is still for one-line strings on canvases whose width is a multiple of 8; for strings with line feeds that statement is checked on every run (per-line scaleDevOk), the model-level per-line theorem is Lemmas/MonoTextDev.textR0_dev. Clipped renderings (negative cursors etc.): box clauses and model comparison only.",
     technique="Lean 4 proof (induction over the string with generalised cursor on top of the C16 frame/paint calculus; kernel decide over regenerated font tables; executable Spec connected to the model by a bit-level bridge) + model/implementation correspondence",
 )
